@@ -48,6 +48,37 @@ class CountingInit:
         return 'CountingInit'
 
 
+class Bag:
+    """a hashable (default object hash) mutable accumulator"""
+    def __init__(self):
+        self.items = []
+
+    def __iadd__(self, other):
+        self.items.append(other)
+        return self
+
+    def __add__(self, other):
+        b = Bag()
+        b.items = self.items + [other]
+        return b
+
+    def __repr__(self):
+        return 'Bag(%r)' % (self.items,)
+
+
+class CountingTupleInit:
+    """counts its calls and returns a HASHABLE start value"""
+    def __init__(self):
+        self.calls = 0
+
+    def __call__(self):
+        self.calls += 1
+        return ()
+
+    def __repr__(self):
+        return 'CountingTupleInit'
+
+
 OPLOG = []
 
 
@@ -56,7 +87,7 @@ def logging_add(a, b):
     return a + b
 
 
-INITS = {'int': int, 'float': float, 'list': list, 'tuple': tuple, 'str': str, 'dict': dict, 'odict': OrderedDict}
+INITS = {'int': int, 'float': float, 'list': list, 'tuple': tuple, 'str': str, 'dict': dict, 'odict': OrderedDict, 'bag': Bag}
 OPS = {'iadd': operator.iadd, 'add': operator.add, 'logadd': logging_add}
 
 
@@ -93,6 +124,8 @@ def ref_items(outer, menu, idxs):
 def mk_init(name):
     if name == 'count':
         return CountingInit()
+    if name == 'counttuple':
+        return CountingTupleInit()
     return INITS[name]
 
 
@@ -121,7 +154,7 @@ def reference(spec_term, items):
     """plain Python value of the reduction over *items* (a fresh list)"""
     k = spec_term[0]
     if k == 'fold':
-        init = INITS.get(spec_term[2], list)
+        init = INITS.get(spec_term[2], tuple if spec_term[2] == 'counttuple' else list)
         return functools.reduce({'iadd': operator.iadd, 'add': operator.add, 'logadd': operator.add}[spec_term[3]], items, init())
     if k == 'sum':
         init = INITS.get(spec_term[2], list)
@@ -209,7 +242,7 @@ def run_case(case):
     results = []
     inputs = []
     for n, inp in enumerate((inp_a, inp_a, inp_b)):
-        calls0 = init.calls if isinstance(init, CountingInit) else None
+        calls0 = init.calls if isinstance(init, (CountingInit, CountingTupleInit)) else None
         target, want, got, problem = one_eval(spec, spec_term, inp)
         if problem:
             return R({'expected': repr(want)[:300], 'observed': problem, 'spec': repr(spec), 'evaluation': n + 1, 'input': inp}, want[0])
@@ -225,7 +258,7 @@ def run_case(case):
     for t in inputs:
         mutable_ids(t, seen)
     for i, r in enumerate(results):
-        if isinstance(r, (list, dict, set)):
+        if isinstance(r, (list, dict, set, Bag)):
             if id(r) in seen:
                 return R({'expected': 'the result is a fresh object (not an input element, not an earlier result)', 'observed': 'result is %r' % (seen[id(r)],),
                           'spec': repr(spec), 'evaluation': i + 1}, 'ok')
@@ -310,9 +343,11 @@ def gen_inputs(tier):
 def gen_specs():
     specs = []
     for sub in ('T', 'k'):
-        for init in list(INITS) + ['count']:
+        for init in list(INITS) + ['count', 'counttuple']:
             for op in OPS:
                 specs.append(['fold', sub, init, op])
+            if init in ('bag', 'counttuple'):
+                continue
             specs.append(['sum', sub, init])
             specs.append(['flatten', sub, init])
         specs.append(['flatten', sub, 'lazy'])
